@@ -997,7 +997,44 @@ def run_rkey(case, col=None):
 
 
 # ---------------------------------------------------------------- driver
-RUNNERS = {"sign": run_sign, "tamper": run_tamper, "errors": run_errors, "place": run_place,
+def run_rerender(case, col=None):
+    """use_tsig -> to_wire -> (modify the message) -> to_wire again: every rendering the
+    library produces for a message that is configured for signing must carry the RFC 8945
+    MAC of *that* rendering and validate under the same key."""
+    probs = []
+    secret = case_secret(case)
+    wire1, key, rm, m = sign_single(dict(case, err=0))
+    t0 = TIMES[case["time"]]
+    mods = {
+        "none": lambda: None,
+        "add-record": lambda: m.find_rrset(m.additional, dns.name.from_text("extra.example."), dns.rdataclass.IN,
+                                           dns.rdatatype.A, create=True).add(dns.rdata.from_text("IN", "A", "10.9.8.7"), 60),
+        "flags": lambda: setattr(m, "flags", m.flags ^ dns.flags.CD),
+        "id": lambda: setattr(m, "id", (m.id + 1) & 0xFFFF),
+    }
+    mods[case["mod"]]()
+    CLOCK.now = t0 + 2
+    wire2 = m.to_wire()
+    try:
+        mac, t = ref.expected_mac(wire2, secret, rm)
+    except ref.RefError as e:
+        return [("rerender/no-tsig/" + case["mod"], "second rendering carries no usable TSIG: %s" % e)]
+    if mac != t.mac:
+        probs.append(("rerender/mac-differs-from-rfc8945/" + case["mod"],
+                      "second to_wire() after modification %r: MAC %s, RFC 8945 over the rendered bytes gives %s" % (
+                          case["mod"], t.mac.hex(), mac.hex())))
+    v, label, obj = validate(wire2, key, rm, t0 + 2)
+    if col:
+        col.count("evaluations", 2)
+        col.outcome("rerender:%s:%s" % (case["mod"], label))
+        col.nontrivial(("rerender", case_key(case), case["mod"]))
+    if v != "ok":
+        probs.append(("rerender/own-message-rejected/%s/%s" % (case["mod"], label),
+                      "the library's second rendering (after %r) does not validate under the same key" % case["mod"]))
+    return probs
+
+
+RUNNERS = {"rerender": run_rerender, "sign": run_sign, "tamper": run_tamper, "errors": run_errors, "place": run_place,
            "multi": run_multi, "roundtrip": run_roundtrip, "rkey": run_rkey}
 
 
@@ -1153,6 +1190,8 @@ def run(ctx):
 
     # 5b. Renderer signing with a Key object and no explicit algorithm argument
     tasks += chunks([base_case(mode="rkey", alg=alg, keyname=kn) for alg in ALGS for kn in KEYNAMES], 18)
+    tasks += chunks([base_case(mode="rerender", alg=alg, kind=kind, role=role, mod=mod)
+                     for alg in ALGS for kind in KINDS for role in ROLES for mod in ("none", "add-record", "flags", "id")], 24)
 
     # 6. multi-message exchanges
     mcases = []
